@@ -24,7 +24,7 @@ def queries(tier):
                         # ALSO_COMPACT (compact() + filter() on the post-state) was tried on 2- and 4-slot tables: symex of std::sort over pairs + filter's growth did not finish in 250 s
                         qs.append(Q(f'tuple_step_lgc{lgc}_lgn{lgn}_rf{rf}_m{m:02x}', 'tuple', 'c13_tuple_step.c', defs=d, tu_defs={'VERIF_STUB_HASH': None},
                                     unwind=(2 << lgn) + 2, unwindset={'^(verif_hash128|hm_key_u64|harness|verif_mem(set|cpy)_.*|verif_new_.*)$': 42},
-                                    timeout=(300 if tier == 'quick' else 1500), native_vectors=300, c_defs={'VERIF_NEW_CAPN': 40, 'VERIF_VEC_CAP': (2 << lgn)}, mem_gb=(10 if tier == 'quick' else 28)))
+                                    timeout=((900 if rebuild else 300) if tier == 'quick' else 1500), native_vectors=300, c_defs={'VERIF_NEW_CAPN': 40, 'VERIF_VEC_CAP': (2 << lgn)}, mem_gb=(10 if tier == 'quick' else 28)))
     # tuple set operations on compact operands built from parts (symbolic hashes, thetas, summaries)
     for (op, na, nb, ao, bo, ro) in [(2, 1, 1, 1, 1, 0), (2, 2, 1, 0, 1, 0), (2, 2, 2, 0, 1, 0), (1, 1, 1, 1, 1, 0), (1, 2, 2, 1, 1, 0), (1, 2, 1, 0, 1, 0), (0, 1, 1, 1, 1, 0)]:   # unions of 2+1 / 2+2 entries (8-slot table): symex did not finish in 300 s
         cd = {'VERIF_NEW_CAPN': 16, 'VERIF_VEC_CAP': 8}
